@@ -689,6 +689,13 @@ def r2c_content_address_key_byte(cx):
           "with pack_id_size = U2 every write of the content-address key byte (%d sites) comes after `| 0b0000_0100` (writes reachable without it: lines %s)" % (len(writes), missed))
 
 
+def r12_widths_chosen_on_final_positions(cx):
+    """'sizes': the byte width of a column is chosen from the values that will be written -- for a column of entry
+    positions, after the last sort and re-indexing (= C15-R1 under C14)"""
+    import c15
+    c15.r1_reindex(cx, rule="R12")
+
+
 def r11_offset_widths(cx):
     """'sizes, tables': the width announced for a table of offsets is the width of the total it is bounded by (= C02-R8)"""
     import c02
@@ -696,6 +703,7 @@ def r11_offset_widths(cx):
 
 
 RULES = [
+    ("R12", r12_widths_chosen_on_final_positions, 7),
     ("R11", r11_offset_widths, 3),
     ("R10", r10_stored_positions_are_pack_relative, 4),
     ("R9", r9_counts_are_not_truncated, 5),
